@@ -48,6 +48,14 @@ CHECKS = {
         note=PROOF_NOTE + "The C14 model is hand-written (no translator). Modelled, not verified: DataLoader ordering with workers, default collate, per-sample action of _process_output (validated by pixel checks), C13 for the batches.",
         technique="Coq proof (induction over volumes and batches of the bookkeeping state machine) + exact correspondence through the real predict loop",
         design="§6 C14"),
+    "C15": dict(
+        text="Checkpointer.save is regenerated on every run as a trace of file-system effects (open-truncate, write, close, os.replace on symbolic paths) and proved crash safe for every prior file-system state, iteration and content: "
+             "dying between any two effects or inside a write leaves load('latest') = previous or new checkpoint, never corrupt (also after any history of saves, re-saving an iteration included); a complete save is 'latest'. "
+             "The label arithmetic of the kill/OOM paths, of the regular checkpoint and of Engine.train's resume start is regenerated and proved to restart exactly where the saved state stands; with the C16 reference run this gives "
+             "resume = uninterrupted run for any model/optimiser/schedule. Tied to the code by fault injection (the real save aborted at every effect and torn write, the real load classified) and by interrupt/resume runs through the real Engine.train (SGD, Adam, WarmupMultiStepLR) compared bit-exactly with the uninterrupted run.",
+        note=PROOF_NOTE + "Modelled, not verified: process death only (issued writes persist in order, os.replace atomic; no fsync/power-loss model); torch.save/load and state_dict round-trips; the load('latest') model is hand-written; learning-rate schedules are checked to be functions of last_epoch by an oracle on the implementation only.",
+        technique="Coq proof over a regenerated file-system effect trace with crash semantics + regenerated resume arithmetic; fault-injection and resume correspondence through the real Checkpointer / Engine.train",
+        design="§6 C15"),
 }
 
 PENDING = {
